@@ -172,3 +172,13 @@ def run(ctx):
     from engine.sizeofrule import sizeof_match
     sizeof_match(ctx, prog)
 
+    ctx.rule('FMT-FIRST', 'in the header readers, a per-channel table (peak_info_calloc, wavlike_read_peak_chunk) is allocated only after the channel count is final: dominated by the assignment of '
+             'SF_INFO.channels, or by a rejecting parse-state test whose mask contains the bit set where the channel count is parsed', floor=4)
+    from engine.fmtfirst import fmt_first
+    fmt_first(ctx, prog, eff)
+
+    ctx.rule('COUNT-TABLE', 'a heap table T = calloc (N, ...) and its count N stay paired: every path from an assignment of a new (non-zero) count to a use that hands out T together with N '
+             '(a call passing both, a loop bounded by N that subscripts T) passes an assignment of T', floor=8)
+    from engine.counttable import count_table
+    count_table(ctx, prog)
+
